@@ -190,8 +190,10 @@ class CavityQEDCompiler(GateCompiler):
             * (1.0 / self.Delta[q1] + 1.0 / self.Delta[q2])
             / 2.0
         )
+        # The couplings and detunings are held constant during the swap,
+        # only its duration is computed here: always a rectangular pulse.
         coeff, tlist = self.generate_pulse_shape(
-            args["shape"], args["num_samples"], maximum=J, area=area
+            "rectangular", None, maximum=J, area=area
         )
         instruction_list = [Instruction(gate, tlist, pulse_info)]
 
